@@ -1122,7 +1122,7 @@ fn build_to_index_fn(variants: &[VariantEntry]) -> TokenStream {
 
 fn build_eq_checker(this: TokenStream) -> TokenStream {
     quote_spanned!(this.span()=>{
-        fn _eq<T: Eq + ?Sized>(_this: &T) { }
+        fn _eq<__T: ::core::cmp::Eq + ?::core::marker::Sized>(_this: &__T) { }
         _eq(&(#this))
     })
 }
